@@ -266,6 +266,22 @@ def main(chk):
             for mv in ([2.0, 3.0, 2.5, 0.0, -1.5] if IND[name]['mult'] else [None]):
                 r = check_native_ctor(name, per, mv)
                 if r and not bad: bad = (name, r)
+    # accessors / Display "for the indicator's whole life": after inputs and a reset they still report the constructor arguments
+    for name in ALL:
+        np_ = IND[name]['np']
+        per = [5, 3, 4][:np_] if np_ != 3 else [4, 7, 3]
+        mv = 2.5 if IND[name]['mult'] else None
+        feed = (lambda i: 'next a %r' % (10.0 + i)) if IND[name]['scalar'] else (lambda i: 'bar a %r %r %r %r %r' % (10.0 + i, 11.0 + i, 9.0 + i, 10.5 + i, 100.0))
+        obs = ['display a'] + (['period a'] if IND[name]['period'] else []) + (['mult a'] if IND[name]['mult'] else [])
+        lines = [native.new_cmd('a', name, per, mv)] + obs + [feed(i) for i in range(4)] + obs + ['reset a'] + obs + [feed(i) for i in range(3)] + obs
+        rep = native.run_script(lines)
+        snaps, cur = [], []
+        for l, r in zip(lines, rep):
+            if l in obs:
+                cur.append(r)
+                if len(cur) == len(obs): snaps.append(cur); cur = []
+        if any(sn != snaps[0] for sn in snaps) and not bad:
+            bad = (name, (lines, '%s: Display / period() / multiplier() changed during the life of the instance: %r' % (name, snaps)))
     chk.extra['display_sweep'] = 'native sweep of Display/period()/multiplier() over boundary constants: ' + ('ok' if not bad else 'FAILED')
     if bad:
         chk.add([fam_result('native Display/accessor sweep ' + bad[0], 'K', 'violation', detail=bad[1][1], replay=bad[1][0], obligations=1, discharged=0)])
